@@ -1,4 +1,5 @@
 import MqttVerif.Conn.Lemmas.AliasStep
+import MqttVerif.Conn.Lemmas.TarGhost3
 /-!
 # C13 — Topic aliases always resolve to the intended topic at the receiver
 
@@ -17,6 +18,9 @@ the implementation's traces).  Invariant `AliasInv s peer` (`Conn/Lemmas/Alias.l
 `Agree` (every sender binding is a receiver binding).  All theorems are for **every** state,
 packet, parser behaviour and operation sequence; `s.ver = 5` is the "v5.0 connection" of the
 property text (the version, once determined, never changes: `step_ver`).
+
+Receiver side (sections 5 and 6): the driver's ghost table of the bindings the peer announced
+(`TarAgree`, `RecvGhostInv`); section 6 follows the driver's current update (`inTblStep2`, `ownTamStep`).
 -/
 set_option linter.unusedSimpArgs false
 set_option linter.unusedVariables false
@@ -486,13 +490,749 @@ theorem C13_delivered_under_ghost_topic (c : C) (p : Pkt) (tbl : Mon.PeerTable) 
       ∃ a, q.alias = some a ∧ Mon.peerLookup a tbl = some q.topic :=
   delivered_topic c p tbl hev hx hagree
 
-/-- the ghost update of the monitor (`inTblStep`: a PUBLISH with non-empty topic and alias `a` that
-    is delivered or produces no error binds `a ↦ topic`) keeps `TarAgree` -/
+/-- the ghost update of the monitor as it was before round 4 (`inTblStep`: a PUBLISH with non-empty
+    topic and alias `a` that is delivered or produces no error binds `a ↦ topic`) keeps `TarAgree`;
+    for the driver's current update see section 6 (`C13_recv_ghost_step2`, `C13_recv_ghost_inv_step`) -/
 theorem C13_recv_ghost_step (c : C) (p : Pkt) (tbl : Mon.PeerTable) (hev : c.ev = []) (hagree : TarAgree c.s tbl)
     (hacc : Mon.hasError (prV5Publish c (.ok p)).ev = false ∨
       ((prV5Publish c (.ok p)).ev.any fun e => match e with | .recv q => decide (q.kind = Kind.publish) | _ => false) = true) :
     TarAgree (prV5Publish c (.ok p)).s (inTblStep tbl p (prV5Publish c (.ok p)).ev) :=
   tarAgree_step c p tbl hev hagree hacc
+
+/-! ## 6. receiver side, round 4: the ghost table registers every announced binding
+
+The driver's receiver-side ghost changed (`Driver/ConnDrv.lean`, `monitorCall`, "C13 (receiver side)"):
+the table is emptied by `closed` and by a call that *delivers* a CONNECT or a successful CONNACK
+(`inTbl0`); a received, parsed v5.0 PUBLISH with a non-empty topic and an alias within the Topic
+Alias Maximum *we announced on this connection* (`ownTam`, read off the v5.0 CONNECT / successful
+CONNACK we sent; 0 after `closed`) registers its binding — whether or not the packet is then refused
+(Receive Maximum exceeded …).  The definitions below are the driver's, on the model's types.
+
+Results (model-side lemmas: `Conn/Lemmas/TarGhost.lean`, `TarGhost2.lean`, `TarGhost3.lean`):
+* `C13_recv_ghost_step2` — handler level: `TarAgree ∧ TamAgree` kept by `prV5Publish c (.ok p)` for every
+  `p`, no "accepted or delivered" hypothesis;
+* `C13_recv_ghost_inv_step` — `RecvGhostInv` (`TarAgree`, `TamAgree`, `VerTar`) is preserved by every
+  `step` under the contract `RecvGhostOk` (state-dependent clauses in their weakest form);
+* `C13_recv_ghost_inv_step_peer`, `C13_recv_ghost_run` — the same with the natural contract
+  `RecvGhostPeerOk` (conformant peer, at most one Topic Alias Maximum, …) and from `St.init`;
+* `C13_delivered_under_wrong_topic_never` — the monitor's check itself, for one call;
+* `C13Ex2` — every clause of the contract is needed (`decide`-checked histories).  Two of them are
+  findings about the implementation rather than about the monitor: a PUBLISH received while
+  `connecting` is processed (bindings registered before the CONNACK survive it), and a CONNACK is
+  accepted while `disconnected`. -/
+
+/-- `delivered` of the driver: the first delivered CONNECT / successful CONNACK among the events -/
+def deliveredStart (evs : List Ev) : Option Pkt :=
+  evs.findSome? fun e => match e with
+    | .recv p => if p.kind = Kind.connect ∨ (p.kind = Kind.connack ∧ p.rc = some 0) then some p else none
+    | _ => none
+
+/-- `inTbl0`: `closed` and a delivered connection start empty the ghost table -/
+def inTblReset (op : Op) (evs : List Ev) (tbl : Mon.PeerTable) : Mon.PeerTable :=
+  match op, deliveredStart evs with
+  | .closed, _ => []
+  | _, some _ => []
+  | _, none => tbl
+
+/-- `ownTam0` -/
+def ownTamReset (op : Op) (ownTam : Nat) : Nat :=
+  match op with
+  | .closed => 0
+  | _ => ownTam
+
+/-- the new ghost table after a `recv` whose parsed packet is the v5.0 PUBLISH `p` -/
+def inTblStep2 (ownTam : Nat) (tbl : Mon.PeerTable) (p : Pkt) : Mon.PeerTable :=
+  match p.alias with
+  | some a =>
+    if !p.topic.isEmpty ∧ 1 ≤ a ∧ a ≤ ownTam then (a, p.topic) :: tbl.filter (fun kv => kv.1 ≠ a) else tbl
+  | none => tbl
+
+/-- `ownTam`: the Topic Alias Maximum of the last v5.0 CONNECT / successful CONNACK among the events
+    (`Mon.findProp`: the FIRST such property of the packet; 0 when there is none) -/
+def ownTamStep (ownTam0 : Nat) (evs : List Ev) : Nat :=
+  evs.foldl (fun acc e => match e with
+    | .send p _ =>
+      if p.ver = 5 ∧ (p.kind = Kind.connect ∨ (p.kind = Kind.connack ∧ p.rc = some 0)) then
+        (Mon.findProp p pTAM).getD 0 else acc
+    | _ => acc) ownTam0
+
+/-- the driver's whole update of the ghost table for one call; `orc`: the parsed packet the harness
+    reports for a `recv` call that produced a frame (`parsed = .ok p ∧ frame ≠ "none"`) -/
+def inTblNext (op : Op) (orc : Option Pkt) (evs : List Ev) (ownTam : Nat) (tbl : Mon.PeerTable) :
+    Mon.PeerTable :=
+  match op, orc with
+  | .recv _ _, some p =>
+    if p.ver = 5 ∧ p.kind = Kind.publish then inTblStep2 (ownTamReset op ownTam) (inTblReset op evs tbl) p
+    else inTblReset op evs tbl
+  | _, _ => inTblReset op evs tbl
+
+def ownTamNext (op : Op) (evs : List Ev) (ownTam : Nat) : Nat := ownTamStep (ownTamReset op ownTam) evs
+
+/-- the parsed packet of a `recv` call that completes a frame (what the harness prints as `parsed=`;
+    the driver feeds the model the constant parser `fun _ _ _ => parsed`, for which the version
+    argument is irrelevant) -/
+def recvParsed (s : St) : Op → Option Pkt
+  | .recv inp parse =>
+    match (Framing.feed s.pb inp).2.1 with
+    | some (.complete fh data) => TarGhost.okOf (parse s.ver fh data)
+    | _ => none
+  | _ => none
+
+/-- the model's Topic Alias Maximum for incoming aliases is the one the ghost read off our CONNECT / CONNACK -/
+def TamAgree (s : St) (ownTam : Nat) : Prop := ∀ t, s.tar = some t → t.max = ownTam
+
+/-- the receive table exists on v5.0 connections only -/
+def VerTar (s : St) : Prop := s.ver = 5 ∨ ((s.ver = 0 ∨ s.ver = 4) ∧ s.tar = none)
+
+/-- the receiver-side ghost invariant -/
+structure RecvGhostInv (s : St) (tbl : Mon.PeerTable) (ownTam : Nat) : Prop where
+  agree : TarAgree s tbl
+  tam : TamAgree s ownTam
+  ver : VerTar s
+
+/-- at most one Topic Alias Maximum property (a second one is a protocol error, [MQTT-3.1.2.11]) -/
+def TamUnique (p : Pkt) : Prop := (p.props.filter (fun kv => kv.1 = pTAM)).length ≤ 1
+
+/-- the L1 parser answers with a packet of the frame's type and of the version it parsed for -/
+def ParseTG (parse : Nat → Nat → List Nat → Except Nat Pkt) : Prop :=
+  ∀ v fh d p, parse v fh d = .ok p → p.kind.nibble = fh / 16 ∧ p.ver = v
+
+/-- the receive table has no bindings -/
+def TarFresh (o : Option TAR) : Prop := ∀ t, o = some t → t.m = []
+
+/-- **contract of one call** for the receiver-side ghost, part 1 (each clause is needed: `C13Ex2`) -/
+structure RecvGhostBase (s : St) (op : Op) : Prop where
+  /-- (d) parser: type nibble and version -/
+  parse : ∀ inp parse, op = .recv inp parse → ParseTG parse
+  /-- (b) packets handed to `send` are v3.1.1 or v5.0 packets -/
+  sendVer : ∀ p, op = .send p → p.ver = 4 ∨ p.ver = 5
+  /-- (a) a CONNECT / CONNACK we send carries at most one Topic Alias Maximum -/
+  tamUnique : ∀ p, op = .send p → p.kind = .connect ∨ p.kind = .connack → TamUnique p
+  /-- the peer respects the Maximum Packet Size we announced (for PUBLISH frames) -/
+  size : ∀ inp parse fh data, op = .recv inp parse → (Framing.feed s.pb inp).2.1 = some (.complete fh data) →
+    fh / 16 = 3 → totalSize data.length ≤ s.mpsRecv
+
+/-- part 2, the state-dependent clauses in their weakest form (natural forms: `PeerOk`; `StoreTG` is
+    itself inductive: `TarGhost.storeTG_step`) -/
+structure RecvGhostOk (cfg : Cfg) (s : St) (op : Op) : Prop extends RecvGhostBase s op where
+  /-- (d) the store holds no v5.0 CONNECT / CONNACK (`C05_store_kinds`) -/
+  store : TarGhost.StoreTG s
+  /-- a successful CONNACK without (non-zero) Topic Alias Maximum is sent (accepted only while
+      `connecting`) only when no receive table exists: it answers a delivered CONNECT and is not sent
+      on top of a CONNECT we sent ourselves (possible with role `any`) -/
+  connackFresh : ∀ p, op = .send p → p.kind = .connack → p.rc = some 0 → s.status = .connecting →
+    s.tar = none ∨ (Mon.findProp p pTAM).getD 0 ≠ 0
+  /-- (c) a successful CONNACK is delivered only to a receive table without bindings (the ghost table
+      is emptied by that delivery, the model's is not) -/
+  connackEmpty : (∃ p, Ev.recv p ∈ (step cfg s op).ev ∧ p.kind = .connack ∧ p.rc = some 0) → TarFresh s.tar
+
+/-! ### the ghost reads only the `tg` events -/
+
+theorem deliveredStart_tg (evs : List Ev) : deliveredStart evs = deliveredStart (TarGhost.tg evs) := by
+  induction evs with
+  | nil => rfl
+  | cons e rest ih =>
+    cases e with
+    | recv p =>
+      by_cases h : p.kind = Kind.connect ∨ (p.kind = Kind.connack ∧ p.rc = some 0)
+      · have : TarGhost.tgRecv p = true := by simpa [TarGhost.tgRecv] using h
+        simp [deliveredStart, List.findSome?, TarGhost.tg_cons, this, h]
+      · have : TarGhost.tgRecv p = false := by simpa [TarGhost.tgRecv] using h
+        simp only [deliveredStart, List.findSome?, TarGhost.tg_cons, TarGhost.TGev_recv, this, h, if_false,
+          Bool.false_eq_true, List.nil_append] at ih ⊢
+        exact ih
+    | send p r =>
+      by_cases h : TarGhost.tgSend p = true
+      · simp only [deliveredStart, List.findSome?, TarGhost.tg_cons, TarGhost.TGev_send, h, if_true,
+          List.singleton_append] at ih ⊢
+        exact ih
+      · simp only [deliveredStart, List.findSome?, TarGhost.tg_cons, TarGhost.TGev_send, h, if_false,
+          List.nil_append] at ih ⊢
+        exact ih
+    | _ => simpa [deliveredStart, List.findSome?, TarGhost.tg_cons, TarGhost.TGev] using ih
+
+theorem ownTamStep_tg (evs : List Ev) : ∀ t, ownTamStep t evs = ownTamStep t (TarGhost.tg evs) := by
+  induction evs with
+  | nil => intro t; rfl
+  | cons e rest ih =>
+    intro t
+    cases e with
+    | send p r =>
+      by_cases h : p.ver = 5 ∧ (p.kind = Kind.connect ∨ (p.kind = Kind.connack ∧ p.rc = some 0))
+      · have : TarGhost.tgSend p = true := by simpa [TarGhost.tgSend] using h
+        simp only [ownTamStep, List.foldl_cons, h, and_self, if_true, TarGhost.tg_cons, TarGhost.TGev_send, this,
+          List.singleton_append] at ih ⊢
+        exact ih _
+      · have : TarGhost.tgSend p = false := by simpa [TarGhost.tgSend] using h
+        simp only [ownTamStep, List.foldl_cons, h, if_false, TarGhost.tg_cons, TarGhost.TGev_send, this,
+          Bool.false_eq_true, List.nil_append] at ih ⊢
+        exact ih _
+    | recv p =>
+      by_cases h : TarGhost.tgRecv p = true
+      · simp only [ownTamStep, List.foldl_cons, TarGhost.tg_cons, TarGhost.TGev_recv, h, if_true,
+          List.singleton_append] at ih ⊢
+        exact ih _
+      · simp only [ownTamStep, List.foldl_cons, TarGhost.tg_cons, TarGhost.TGev_recv, h, if_false,
+          List.nil_append] at ih ⊢
+        exact ih _
+    | _ => simpa [ownTamStep, List.foldl_cons, TarGhost.tg_cons, TarGhost.TGev] using ih t
+
+/-! ### the property fold of the model against `Mon.findProp` of the ghost -/
+
+theorem tamFold_noTam (l : List (Nat × Nat)) (h : ∀ kv ∈ l, kv.1 ≠ pTAM) (o : Option TAR) :
+    TarGhost.tamFold o l = o := by
+  induction l generalizing o with
+  | nil => rfl
+  | cons x rest ih =>
+    obtain ⟨i, v⟩ := x
+    have hi : i ≠ pTAM := h (i, v) (by simp)
+    rw [TarGhost.tamFold, ih (fun kv hkv => h kv (by simp [hkv]))]
+    simp [hi]
+
+/-- with at most one Topic Alias Maximum property the model's fold (last non-zero value) and the
+    ghost's `findProp` (first value) agree -/
+theorem tamFold_unique (p : Pkt) (h : TamUnique p) (o : Option TAR) :
+    TarGhost.tamFold o p.props =
+      (if (Mon.findProp p pTAM).getD 0 ≠ 0 then some { max := (Mon.findProp p pTAM).getD 0 } else o) := by
+  unfold TamUnique at h
+  unfold Mon.findProp
+  generalize p.props = l at h
+  induction l generalizing o with
+  | nil => simp [TarGhost.tamFold]
+  | cons x rest ih =>
+    obtain ⟨i, v⟩ := x
+    by_cases hi : i = pTAM
+    · subst hi
+      have hr : ∀ kv ∈ rest, kv.1 ≠ pTAM := by
+        intro kv hkv hk
+        have : kv ∈ rest.filter (fun kv => kv.1 = pTAM) := by simp [hkv, hk]
+        simp only [List.filter_cons, decide_true, if_true, List.length_cons] at h
+        have h0 : (rest.filter (fun kv => decide (kv.1 = pTAM))).length = 0 := by omega
+        rw [List.length_eq_zero_iff.mp h0] at this
+        cases this
+      rw [TarGhost.tamFold, tamFold_noTam rest hr]
+      simp [List.find?]
+    · rw [TarGhost.tamFold]
+      simp only [hi, false_and, if_false]
+      rw [ih]
+      · simp [List.find?, hi]
+      · simpa [List.filter_cons, hi] using h
+
+theorem tamFold_cases (l : List (Nat × Nat)) (o : Option TAR) :
+    TarGhost.tamFold o l = o ∨ ∃ v, TarGhost.tamFold o l = some { max := v } := by
+  induction l generalizing o with
+  | nil => exact .inl rfl
+  | cons x rest ih =>
+    obtain ⟨i, v⟩ := x
+    rw [TarGhost.tamFold]
+    split
+    · rcases ih (some { max := v }) with h | ⟨w, h⟩
+      · exact .inr ⟨v, h⟩
+      · exact .inr ⟨w, h⟩
+    · exact ih o
+
+theorem TarFresh.agree {s : St} (h : TarFresh s.tar) (tbl : Mon.PeerTable) : TarAgree s tbl := by
+  intro a t topic ht hl
+  rw [h t ht] at hl; simp [lookup] at hl
+
+theorem tarFresh_none : TarFresh none := by intro t h; cases h
+theorem tarFresh_mk (v : Nat) : TarFresh (some { max := v }) := by intro t h; cases h; rfl
+
+/-! ### the alias stage against the ghost's registration -/
+
+/-- the model's receive table after the alias stage is contained in the ghost table after
+    `inTblStep2`: with `TamAgree` the model registers a binding iff the ghost does (when the model has
+    no table only the ghost registers: harmless) -/
+theorem tarAgree_aliasTar {s s' : St} {tbl : Mon.PeerTable} {ownTam : Nat} (p : Pkt)
+    (hs' : s'.tar = TarGhost.aliasTar s.tar p) (hagree : TarAgree s tbl) (htam : TamAgree s ownTam) :
+    TarAgree s' (inTblStep2 ownTam tbl p) ∧ TamAgree s' ownTam := by
+  rcases Option.eq_none_or_eq_some s.tar with ht | ⟨t, ht⟩
+  · have : s'.tar = none := by rw [hs', ht]; simp [TarGhost.aliasTar]
+    exact ⟨fun a t topic h _ => (by rw [this] at h; cases h), fun t h => (by rw [this] at h; cases h)⟩
+  · have hmax := htam t ht
+    rcases Option.eq_none_or_eq_some p.alias with ha | ⟨a, ha⟩
+    · have e : s'.tar = s.tar := by rw [hs', ht]; simp [TarGhost.aliasTar, ha]
+      have e2 : inTblStep2 ownTam tbl p = tbl := by simp [inTblStep2, ha]
+      rw [e2]
+      exact ⟨fun a t topic h => hagree a t topic (e ▸ h), fun t h => htam t (e ▸ h)⟩
+    · by_cases hc : (!p.topic.isEmpty) = true ∧ 1 ≤ a ∧ a ≤ t.max
+      · have e : s'.tar = some (t.insertOrUpdate p.topic a) := by
+          rw [hs', ht]; simp only [TarGhost.aliasTar, ha]; rw [if_pos hc]
+        have e2 : inTblStep2 ownTam tbl p = (a, p.topic) :: tbl.filter (fun kv => kv.1 ≠ a) := by
+          simp only [inTblStep2, ha]; rw [if_pos (hmax ▸ hc)]
+        rw [e2]
+        constructor
+        · intro k t' topic' h hl
+          rw [e] at h; cases h
+          rw [TAR.insertOrUpdate_lookup] at hl
+          rw [peerLookup_cons_filter]
+          split at hl
+          · rename_i hk; simp [hk]; simpa using hl
+          · rename_i hk; simp [hk]; exact hagree k t topic' ht hl
+        · intro t' h; rw [e] at h; cases h; exact hmax
+      · have e : s'.tar = s.tar := by
+          rw [hs', ht]; simp only [TarGhost.aliasTar, ha]; rw [if_neg hc]
+        have e2 : inTblStep2 ownTam tbl p = tbl := by
+          simp only [inTblStep2, ha]; rw [if_neg (hmax ▸ hc)]
+        rw [e2]
+        exact ⟨fun a t topic h => hagree a t topic (e ▸ h), fun t h => htam t (e ▸ h)⟩
+
+/-- **handler level**: `TarAgree` and `TamAgree` are kept by `process_recv_v5_0_publish`
+    for EVERY parsed PUBLISH with the new ghost update — no "accepted or delivered" hypothesis
+    (driver monitor `VIOL sig=C13 delivered_under_wrong_topic@recv.v5.publish`) -/
+theorem C13_recv_ghost_step2 (c : C) (p : Pkt) (tbl : Mon.PeerTable) (ownTam : Nat)
+    (hagree : TarAgree c.s tbl) (htam : TamAgree c.s ownTam) :
+    TarAgree (prV5Publish c (.ok p)).s (inTblStep2 ownTam tbl p) ∧ TamAgree (prV5Publish c (.ok p)).s ownTam := by
+  have h2 := TarGhost.k_prV5PublishAlias c p
+  simp only [TarGhost.K, Prod.mk.injEq] at h2
+  exact tarAgree_aliasTar p ((prV5Publish_tar c p).trans h2.1) hagree htam
+
+/-! ### the oracle of the harness against the packet the handler gets -/
+
+theorem pubIn_none_of_ver {s : St} (h : s.ver = 0 ∨ s.ver = 4) (op : Op) : TarGhost.pubIn s op = none := by
+  cases op with
+  | recv inp parse =>
+    simp only [TarGhost.pubIn]
+    split
+    · unfold TarGhost.pubInFrame; rw [if_neg]; omega
+    · rfl
+  | _ => rfl
+
+theorem pubIn_iff {s : St} {op : Op} (hv : s.ver = 5)
+    (hparse : ∀ inp parse, op = .recv inp parse → ParseTG parse)
+    (hsize : ∀ inp parse fh data, op = .recv inp parse → (Framing.feed s.pb inp).2.1 = some (.complete fh data) →
+      fh / 16 = 3 → totalSize data.length ≤ s.mpsRecv) (p : Pkt) :
+    TarGhost.pubIn s op = some p ↔ (recvParsed s op = some p ∧ p.ver = 5 ∧ p.kind = .publish) := by
+  cases op with
+  | recv inp parse =>
+    have hp := hparse inp parse rfl
+    have hsz := hsize inp parse
+    simp only [TarGhost.pubIn, recvParsed]
+    generalize (Framing.feed s.pb inp).2.1 = out at hsz ⊢
+    cases out with
+    | none => simp
+    | some o =>
+      cases o with
+      | error => simp
+      | complete fh data =>
+        simp only []
+        unfold TarGhost.pubInFrame
+        dsimp only
+        cases hx : parse s.ver fh data with
+        | error e => simp [TarGhost.okOf]
+        | ok q =>
+          have hq := hp _ _ _ _ hx
+          simp only [TarGhost.okOf, Option.some.injEq]
+          constructor
+          · intro h
+            split at h
+            · rename_i hc
+              cases h
+              refine ⟨rfl, by rw [hq.2, hv], ?_⟩
+              exact (TarGhost.kind_of_nibble hq.1).2.2.1 hc.2.2.1
+            · cases h
+          · rintro ⟨rfl, h5, hk⟩
+            have h3 : fh / 16 = 3 := by rw [← hq.1, hk]; rfl
+            rw [if_pos ⟨hsz fh data rfl rfl h3, by omega, h3, by omega⟩]
+  | _ => simp [TarGhost.pubIn, recvParsed]
+
+theorem inTblNext_eq {s : St} {op : Op} (hv : s.ver = 5)
+    (hparse : ∀ inp parse, op = .recv inp parse → ParseTG parse)
+    (hsize : ∀ inp parse fh data, op = .recv inp parse → (Framing.feed s.pb inp).2.1 = some (.complete fh data) →
+      fh / 16 = 3 → totalSize data.length ≤ s.mpsRecv)
+    (evs : List Ev) (ownTam : Nat) (tbl : Mon.PeerTable) :
+    inTblNext op (recvParsed s op) evs ownTam tbl =
+      match TarGhost.pubIn s op with
+      | some p => inTblStep2 ownTam (inTblReset op evs tbl) p
+      | none => inTblReset op evs tbl := by
+  have key := pubIn_iff hv hparse hsize
+  cases hpi : TarGhost.pubIn s op with
+  | none =>
+    simp only []
+    unfold inTblNext
+    split
+    · rename_i p hrp
+      split
+      · rename_i hc
+        have := (key p).2 ⟨hrp, hc.1, hc.2⟩
+        rw [hpi] at this; cases this
+      · rfl
+    · rfl
+  | some p =>
+    simp only []
+    obtain ⟨h1, h2, h3⟩ := (key p).1 hpi
+    cases op with
+    | recv inp parse =>
+      simp only [inTblNext, h1, h2, h3, and_self, if_true, ownTamReset]
+    | _ => simp [TarGhost.pubIn] at hpi
+
+/-! ### the ghost update computed from the `tg` events of the call -/
+
+theorem ghost_of_tg_nil {op : Op} (hcl : op ≠ .closed) {evs : List Ev} (h : TarGhost.tg evs = [])
+    (tbl : Mon.PeerTable) (ownTam : Nat) :
+    inTblReset op evs tbl = tbl ∧ ownTamNext op evs ownTam = ownTam := by
+  have h1 : deliveredStart evs = none := by rw [deliveredStart_tg, h]; rfl
+  have h2 : ownTamStep ownTam evs = ownTam := by rw [ownTamStep_tg, h]; rfl
+  cases op <;> first | exact absurd rfl hcl | exact ⟨by simp [inTblReset, h1], h2⟩
+
+theorem ghost_of_tg_send {op : Op} (hcl : op ≠ .closed) {evs : List Ev} {p : Pkt} {r : Option Nat}
+    (h : TarGhost.tg evs = [.send p r]) (hp : TarGhost.tgSend p = true) (tbl : Mon.PeerTable) (ownTam : Nat) :
+    inTblReset op evs tbl = tbl ∧ ownTamNext op evs ownTam = (Mon.findProp p pTAM).getD 0 := by
+  have h1 : deliveredStart evs = none := by rw [deliveredStart_tg, h]; rfl
+  have hp' : p.ver = 5 ∧ (p.kind = Kind.connect ∨ (p.kind = Kind.connack ∧ p.rc = some 0)) := by
+    simpa [TarGhost.tgSend] using hp
+  have h2 : ∀ t, ownTamStep t evs = (Mon.findProp p pTAM).getD 0 := by
+    intro t; rw [ownTamStep_tg, h]; simp only [ownTamStep, List.foldl_cons, List.foldl_nil]; rw [if_pos hp']
+  cases op <;> first | exact absurd rfl hcl | exact ⟨by simp [inTblReset, h1], h2 _⟩
+
+theorem ghost_of_tg_recv {op : Op} (hcl : op ≠ .closed) {evs : List Ev} {p : Pkt}
+    (h : TarGhost.tg evs = [.recv p]) (hp : p.kind = Kind.connect ∨ (p.kind = Kind.connack ∧ p.rc = some 0))
+    (tbl : Mon.PeerTable) (ownTam : Nat) :
+    inTblReset op evs tbl = [] ∧ ownTamNext op evs ownTam = ownTam := by
+  have h1 : deliveredStart evs = some p := by
+    rw [deliveredStart_tg, h]; simp only [deliveredStart, List.findSome?]; rw [if_pos hp]
+  have h2 : ownTamStep ownTam evs = ownTam := by rw [ownTamStep_tg, h]; rfl
+  cases op <;> first | exact absurd rfl hcl | exact ⟨by simp [inTblReset, h1], h2⟩
+
+theorem RecvGhostInv.of_tar_none {s : St} (h : s.tar = none) (hv : s.ver = 0 ∨ s.ver = 4 ∨ s.ver = 5)
+    (tbl : Mon.PeerTable) (ownTam : Nat) : RecvGhostInv s tbl ownTam :=
+  ⟨fun a t topic ht _ => (by rw [h] at ht; cases ht), fun t ht => (by rw [h] at ht; cases ht), by
+    rcases hv with hv | hv | hv
+    · exact .inr ⟨.inl hv, h⟩
+    · exact .inr ⟨.inr hv, h⟩
+    · exact .inl hv⟩
+
+theorem verStep_ok {a b : Nat} (h : TarGhost.VerStep a b) (ha : a = 0 ∨ a = 4 ∨ a = 5) : b = 0 ∨ b = 4 ∨ b = 5 := by
+  rcases h with h | ⟨h0, h | h⟩
+  · rw [h]; exact ha
+  · exact .inr (.inl h)
+  · exact .inr (.inr h)
+
+theorem VerTar.cases {s : St} (h : VerTar s) : s.ver = 0 ∨ s.ver = 4 ∨ s.ver = 5 := by
+  rcases h with h | ⟨h | h, _⟩
+  · exact .inr (.inr h)
+  · exact .inl h
+  · exact .inr (.inl h)
+
+theorem sentOf_eq {op : Op} {p : Pkt} (h : TarGhost.sentOf op = some p) : op = .send p := by
+  cases op <;> simp [TarGhost.sentOf] at h
+  rw [h]
+
+theorem mem_of_tg_eq {evs : List Ev} {e : Ev} (h : TarGhost.tg evs = [e]) : e ∈ evs := by
+  have : e ∈ TarGhost.tg evs := by rw [h]; simp
+  exact (List.mem_filter.mp this).1
+
+/-- **the receiver-side ghost invariant is inductive** (driver monitor
+    `VIOL sig=C13 delivered_under_wrong_topic@<site>`: the monitor compares every delivered alias-only
+    PUBLISH with `inTbl0`; `C13_delivered_under_ghost_topic` needs `TarAgree` for exactly that table).
+    For every configuration, state and operation satisfying the contract `RecvGhostOk`: the model's
+    receive table stays contained in the driver's ghost table and its Topic Alias Maximum stays the
+    ghost's `ownTam`, with both ghosts updated as the driver does from the events of the call —
+    in particular for a PUBLISH that registers a binding and is then refused (Receive Maximum
+    exceeded): the "accepted or delivered" hypothesis of `C13_recv_ghost_step` is gone. -/
+theorem C13_recv_ghost_inv_step (cfg : Cfg) (s : St) (op : Op) (tbl : Mon.PeerTable) (ownTam : Nat)
+    (hI : RecvGhostInv s tbl ownTam) (hok : RecvGhostOk cfg s op) :
+    RecvGhostInv (step cfg s op).s
+      (inTblNext op (recvParsed s op) (step cfg s op).ev ownTam tbl)
+      (ownTamNext op (step cfg s op).ev ownTam) := by
+  obtain ⟨hver, hres⟩ := TarGhost.step_out cfg s op
+    (fun inp parse h v fh d p hp => ((hok.parse inp parse h) v fh d p hp).1) hok.store
+  have hver' := verStep_ok hver hI.ver.cases
+  by_cases hcl : op = .closed
+  · subst hcl
+    exact .of_tar_none (notifyClosed_tar_none _) hver' _ _
+  by_cases hv : s.ver = 5
+  · -- a v5.0 connection
+    have hv' : (step cfg s op).s.ver = 5 := by
+      rcases hver with h | ⟨h, _⟩
+      · rw [h, hv]
+      · omega
+    rw [inTblNext_eq hv hok.parse hok.size]
+    cases hpi : TarGhost.pubIn s op with
+    | some p =>
+      rw [hpi] at hres
+      simp only [TarGhost.Res, TarGhost.Kt, Prod.mk.injEq] at hres
+      obtain ⟨h1, _, _, h4⟩ := hres
+      obtain ⟨g1, g2⟩ := ghost_of_tg_nil hcl (by simpa using h4) tbl ownTam
+      simp only [g1, g2]
+      obtain ⟨a1, a2⟩ := tarAgree_aliasTar (s := s) (s' := (step cfg s op).s) p h1 hI.agree hI.tam
+      exact ⟨a1, a2, .inl hv'⟩
+    | none =>
+      rw [hpi] at hres
+      simp only [TarGhost.Res] at hres ⊢
+      cases hres with
+      | keep h =>
+        simp only [TarGhost.Kt, Prod.mk.injEq] at h
+        obtain ⟨h1, _, _, h4⟩ := h
+        obtain ⟨g1, g2⟩ := ghost_of_tg_nil hcl (by simpa using h4) tbl ownTam
+        rw [g1, g2]
+        exact ⟨fun a t topic ht => hI.agree a t topic (h1 ▸ ht), fun t ht => hI.tam t (h1 ▸ ht), .inl hv'⟩
+      | closed h => exact .of_tar_none h.tar hver' _ _
+      | connectSent p hsp hk hpv hs h =>
+        have hop := sentOf_eq hsp
+        have hp5 : p.ver = 5 := by rw [← hpv]; exact hv
+        have htg : TarGhost.tgSend p = true := by simp [TarGhost.tgSend, hp5, hk]
+        have hev : TarGhost.tg (step cfg s op).ev = [.send p none] := by simpa [htg] using h.ev
+        obtain ⟨g1, g2⟩ := ghost_of_tg_send hcl hev htg tbl ownTam
+        rw [g1, g2]
+        have htar : (step cfg s op).s.tar = TarGhost.tamFold none p.props := by rw [h.tar]; simp [hp5]
+        rw [tamFold_unique p (hok.tamUnique p hop (.inl hk))] at htar
+        refine ⟨TarFresh.agree ?_ _, ?_, .inl hv'⟩
+        · rw [htar]; split
+          · exact tarFresh_mk _
+          · exact tarFresh_none
+        · intro t ht; rw [htar] at ht
+          split at ht
+          · cases ht; rfl
+          · cases ht
+      | connackSent p st' hsp hk hpv hs hst' h =>
+        have hop := sentOf_eq hsp
+        have hp5 : p.ver = 5 := by rw [← hpv]; exact hv
+        by_cases hrc : p.rc = some 0
+        · have htg : TarGhost.tgSend p = true := by simp [TarGhost.tgSend, hp5, hk, hrc]
+          have hev : TarGhost.tg (step cfg s op).ev = [.send p none] := by simpa [htg] using h.ev
+          obtain ⟨g1, g2⟩ := ghost_of_tg_send hcl hev htg tbl ownTam
+          rw [g1, g2]
+          have htar : (step cfg s op).s.tar = TarGhost.tamFold s.tar p.props := by rw [h.tar]; simp [hp5, hrc]
+          rw [tamFold_unique p (hok.tamUnique p hop (.inr hk))] at htar
+          by_cases hz : (Mon.findProp p pTAM).getD 0 ≠ 0
+          · rw [if_pos hz] at htar
+            refine ⟨TarFresh.agree (by rw [htar]; exact tarFresh_mk _) _, ?_, .inl hv'⟩
+            intro t ht; rw [htar] at ht; cases ht; rfl
+          · rw [if_neg hz] at htar
+            have hnone : s.tar = none := by
+              rcases hok.connackFresh p hop hk hrc hs with h | h
+              · exact h
+              · exact absurd h hz
+            exact .of_tar_none (by rw [htar]; exact hnone) hver' _ _
+        · have htg : TarGhost.tgSend p = false := by simp [TarGhost.tgSend, hrc, hk]
+          have hev : TarGhost.tg (step cfg s op).ev = [] := by simpa [htg] using h.ev
+          obtain ⟨g1, g2⟩ := ghost_of_tg_nil hcl hev tbl ownTam
+          rw [g1, g2]
+          have htar : (step cfg s op).s.tar = s.tar := by rw [h.tar]; simp [hrc]
+          exact ⟨fun a t topic ht => hI.agree a t topic (htar ▸ ht), fun t ht => hI.tam t (htar ▸ ht), .inl hv'⟩
+      | connectRecv p hr hk hs h => exact .of_tar_none h.tar hver' _ _
+      | connectErr hr hs hm h =>
+        obtain ⟨g1, g2⟩ := ghost_of_tg_nil hcl (by simpa using h.ev) tbl ownTam
+        rw [g1, g2]
+        exact ⟨fun a t topic ht => hI.agree a t topic (h.tar ▸ ht), fun t ht => hI.tam t (h.tar ▸ ht), .inl hv'⟩
+      | connackRecv p hr hk hrc hs h =>
+        have hev : TarGhost.tg (step cfg s op).ev = [.recv p] := by simpa using h.ev
+        obtain ⟨g1, g2⟩ := ghost_of_tg_recv hcl hev (.inr ⟨hk, hrc⟩) tbl ownTam
+        rw [g1, g2]
+        have hfresh := hok.connackEmpty ⟨p, mem_of_tg_eq hev, hk, hrc⟩
+        refine ⟨TarFresh.agree (by rw [h.tar]; exact hfresh) _, fun t ht => hI.tam t (h.tar ▸ ht), .inl hv'⟩
+  · -- v3.1.1 or undetermined: there is no receive table, and none is created
+    have hv04 : s.ver = 0 ∨ s.ver = 4 := by have := hI.ver.cases; omega
+    have htn : s.tar = none := by
+      rcases hI.ver with h | ⟨_, h⟩
+      · exact absurd h hv
+      · exact h
+    rw [pubIn_none_of_ver hv04] at hres
+    simp only [TarGhost.Res] at hres
+    refine .of_tar_none ?_ hver' _ _
+    cases hres with
+    | keep h =>
+      simp only [TarGhost.Kt, Prod.mk.injEq] at h
+      rw [h.1]; exact htn
+    | closed h => exact h.tar
+    | connectSent p hsp hk hpv hs h =>
+      have hp4 : p.ver = 4 := by
+        have hpv' : s.ver = p.ver := hpv
+        rcases hok.sendVer p (sentOf_eq hsp) with h | h
+        · exact h
+        · omega
+      rw [h.tar]; simp [hp4]
+    | connackSent p st' hsp hk hpv hs hst' h =>
+      have hp4 : p.ver = 4 := by
+        have hpv' : s.ver = p.ver := hpv
+        rcases hok.sendVer p (sentOf_eq hsp) with h | h
+        · exact h
+        · omega
+      rw [h.tar]; simp [hp4, htn]
+    | connectRecv p hr hk hs h => exact h.tar
+    | connectErr hr hs hm h => rw [h.tar]; exact htn
+    | connackRecv p hr hk hrc hs h => rw [h.tar]; exact htn
+
+/-- **the monitor's check, at the level of one call** (driver monitor
+    `VIOL sig=C13 delivered_under_wrong_topic@recv.v5.publish`): under the ghost invariant and the
+    contract, every alias-only PUBLISH a `recv` call delivers (`topic_name_extracted`) carries exactly
+    the topic the driver's table `inTbl0 = inTblReset op evs tbl` binds its alias to.  `hx`: the L1
+    parser never sets `topic_name_extracted` itself. -/
+theorem C13_delivered_under_wrong_topic_never (cfg : Cfg) (s : St) (op : Op) (tbl : Mon.PeerTable) (ownTam : Nat)
+    (hI : RecvGhostInv s tbl ownTam) (hok : RecvGhostOk cfg s op) (p : Pkt)
+    (hp : recvParsed s op = some p) (h5 : p.ver = 5) (hk : p.kind = .publish) (hx : p.extracted = false) :
+    ∀ q ∈ recvs (step cfg s op).ev, q.extracted = true →
+      ∃ a, q.alias = some a ∧ Mon.peerLookup a (inTblReset op (step cfg s op).ev tbl) = some q.topic := by
+  rcases hI.ver with hv | ⟨hv, htn⟩
+  · have hpi := (pubIn_iff hv hok.parse hok.size p).2 ⟨hp, h5, hk⟩
+    obtain ⟨pb, he⟩ := TarGhost.step_pubIn_eq cfg s op p hpi
+    have hcl : op ≠ .closed := by intro h; subst h; simp [recvParsed] at hp
+    have hres := (TarGhost.step_out cfg s op
+      (fun inp parse h v fh d p hp => ((hok.parse inp parse h) v fh d p hp).1) hok.store).2
+    rw [hpi] at hres
+    simp only [TarGhost.Res, TarGhost.Kt, Prod.mk.injEq] at hres
+    obtain ⟨g1, _⟩ := ghost_of_tg_nil hcl (by simpa using hres.2.2.2) tbl ownTam
+    rw [g1, he]
+    exact C13_delivered_under_ghost_topic { cfg := cfg, s := { s with pb := pb } } p tbl rfl hx
+      (fun a t topic ht hl => hI.agree a t topic ht hl)
+  · -- no v5.0 connection: the parsed packet of a `recv` has the connection's version
+    exfalso
+    cases op with
+    | recv inp parse =>
+      simp only [recvParsed] at hp
+      split at hp
+      · rename_i fh data _
+        cases hq : parse s.ver fh data with
+        | error e => rw [hq] at hp; simp [TarGhost.okOf] at hp
+        | ok q =>
+          rw [hq] at hp; simp only [TarGhost.okOf, Option.some.injEq] at hp; subst hp
+          have := (hok.parse inp parse rfl _ _ _ _ hq).2
+          omega
+      · cases hp
+    | _ => simp [recvParsed] at hp
+
+/-! ### (c) a natural contract for "a successful CONNACK meets an empty receive table" -/
+
+/-- while the connection is being established the receive table has no bindings, and it does not
+    exist at all when the CONNECT was received (`isClient = false`) rather than sent -/
+def ConnectingFresh (s : St) : Prop :=
+  s.status = .connecting → TarFresh s.tar ∧ (s.isClient = false → s.tar = none)
+
+/-- what a conformant peer and a sensible application guarantee; replaces `connackEmpty` and
+    `connackFresh` -/
+structure PeerOk (cfg : Cfg) (s : St) (op : Op) : Prop where
+  /-- a CONNACK is sent in answer to a received CONNECT, not on top of a CONNECT we sent (`isClient` is
+      set by `initConn`: true for a CONNECT sent, false for a CONNECT received; with role `server` it is
+      never true) -/
+  connackServer : ∀ p, op = .send p → p.kind = .connack → s.isClient = false
+  /-- no PUBLISH arrives between the CONNECT and its CONNACK -/
+  pubConn : ∀ p, recvParsed s op = some p → p.kind = .publish → s.status ≠ .connecting
+  /-- a successful CONNACK is delivered only while a CONNECT is outstanding -/
+  connackConn : (∃ p, Ev.recv p ∈ (step cfg s op).ev ∧ p.kind = .connack ∧ p.rc = some 0) → s.status = .connecting
+  /-- a frame arriving on a disconnected connection meets a peer Maximum Packet Size that admits the
+      5-byte error CONNACK (it is `noLimit` after `notify_closed`) -/
+  connectFits : (∃ inp parse, op = .recv inp parse) → s.status = .disconnected → 5 ≤ s.mpsSend
+
+theorem PeerOk.connackEmpty {cfg : Cfg} {s : St} {op : Op} (h : PeerOk cfg s op) (hf : ConnectingFresh s) :
+    (∃ p, Ev.recv p ∈ (step cfg s op).ev ∧ p.kind = .connack ∧ p.rc = some 0) → TarFresh s.tar :=
+  fun he => (hf (h.connackConn he)).1
+
+theorem PeerOk.connackFresh {cfg : Cfg} {s : St} {op : Op} (h : PeerOk cfg s op) (hf : ConnectingFresh s) :
+    ∀ p, op = .send p → p.kind = .connack → p.rc = some 0 → s.status = .connecting →
+      s.tar = none ∨ (Mon.findProp p pTAM).getD 0 ≠ 0 :=
+  fun p hop hk _ hs => .inl ((hf hs).2 (h.connackServer p hop hk))
+
+/-- `ConnectingFresh` is inductive under the peer contract -/
+theorem C13_connecting_fresh_step (cfg : Cfg) (s : St) (op : Op) (hv : VerTar s)
+    (hparse : ∀ inp parse, op = .recv inp parse → ParseTG parse) (hstore : TarGhost.StoreTG s)
+    (hsize : ∀ inp parse fh data, op = .recv inp parse → (Framing.feed s.pb inp).2.1 = some (.complete fh data) →
+      fh / 16 = 3 → totalSize data.length ≤ s.mpsRecv)
+    (hpeer : PeerOk cfg s op) (hf : ConnectingFresh s) : ConnectingFresh (step cfg s op).s := by
+  have hres := (TarGhost.step_out cfg s op
+    (fun inp parse h v fh d p hp => ((hparse inp parse h) v fh d p hp).1) hstore).2
+  intro hst
+  cases hpi : TarGhost.pubIn s op with
+  | some p =>
+    rw [hpi] at hres
+    simp only [TarGhost.Res, TarGhost.Kt, Prod.mk.injEq] at hres
+    have hv5 : s.ver = 5 := by
+      rcases hv with h | ⟨h, _⟩
+      · exact h
+      · rw [pubIn_none_of_ver h] at hpi; cases hpi
+    obtain ⟨h1, _, h3⟩ := (pubIn_iff hv5 hparse hsize p).1 hpi
+    have := hpeer.pubConn p h1 h3
+    exact absurd (hres.2.1 ▸ hst) this
+  | none =>
+    rw [hpi] at hres
+    simp only [TarGhost.Res] at hres
+    cases hres with
+    | keep h =>
+      simp only [TarGhost.Kt, Prod.mk.injEq] at h
+      rw [h.1, h.2.2.1]; exact hf (h.2.1 ▸ hst)
+    | closed h => rw [h.tar]; exact ⟨tarFresh_none, fun _ => rfl⟩
+    | connectSent p hsp hk hpv hs h =>
+      rw [h.tar, h.ic]
+      refine ⟨?_, fun h => by cases h⟩
+      split
+      · exact tarFresh_none
+      · rcases tamFold_cases p.props none with e | ⟨v, e⟩ <;> rw [e]
+        · exact tarFresh_none
+        · exact tarFresh_mk v
+    | connackSent p st' hsp hk hpv hs hst' h => rw [h.st] at hst; exact absurd hst hst'
+    | connectRecv p hr hk hs h => rw [h.tar]; exact ⟨tarFresh_none, fun _ => rfl⟩
+    | connectErr hr hs hm h =>
+      exfalso
+      have hop : ∃ inp parse, op = .recv inp parse := by
+        cases op with
+        | recv inp parse => exact ⟨inp, parse, rfl⟩
+        | _ => simp [TarGhost.isRecvOp] at hr
+      have := hpeer.connectFits hop hs
+      have hm' : s.mpsSend < 5 := hm
+      omega
+    | connackRecv p hr hk hrc hs h => rw [h.st] at hst; cases hst
+
+/-- the contract with the state-dependent clauses in their natural form -/
+structure RecvGhostPeerOk (cfg : Cfg) (s : St) (op : Op) : Prop extends RecvGhostBase s op, PeerOk cfg s op where
+  /-- (d) `restore_packets` is given no v5.0 CONNECT / CONNACK (an export holds PUBLISH / PUBREL only) -/
+  restore : TarGhost.RestoreTG op
+
+/-- **the receiver-side ghost invariant with the natural peer contract** (driver monitor
+    `VIOL sig=C13 delivered_under_wrong_topic@<site>`): `RecvGhostInv` together with "no bindings
+    while connecting" and "no CONNECT / CONNACK in the store" is preserved by every call that respects
+    `RecvGhostPeerOk` -/
+theorem C13_recv_ghost_inv_step_peer (cfg : Cfg) (s : St) (op : Op) (tbl : Mon.PeerTable) (ownTam : Nat)
+    (hI : RecvGhostInv s tbl ownTam) (hf : ConnectingFresh s) (hst : TarGhost.StoreTG s)
+    (hok : RecvGhostPeerOk cfg s op) :
+    RecvGhostInv (step cfg s op).s
+      (inTblNext op (recvParsed s op) (step cfg s op).ev ownTam tbl)
+      (ownTamNext op (step cfg s op).ev ownTam) ∧
+    ConnectingFresh (step cfg s op).s ∧ TarGhost.StoreTG (step cfg s op).s :=
+  ⟨C13_recv_ghost_inv_step cfg s op tbl ownTam hI
+      { toRecvGhostBase := hok.toRecvGhostBase, store := hst, connackFresh := hok.toPeerOk.connackFresh hf,
+        connackEmpty := hok.toPeerOk.connackEmpty hf },
+   C13_connecting_fresh_step cfg s op hI.ver hok.parse hst hok.size hok.toPeerOk hf,
+   TarGhost.storeTG_step cfg s op hok.restore hst⟩
+
+/-- both ghosts along a history, updated as the driver does -/
+def recvGhostRun (cfg : Cfg) : St → Mon.PeerTable → Nat → List Op → Mon.PeerTable × Nat
+  | _, tbl, ownTam, [] => (tbl, ownTam)
+  | s, tbl, ownTam, op :: ops =>
+    recvGhostRun cfg (step cfg s op).s
+      (inTblNext op (recvParsed s op) (step cfg s op).ev ownTam tbl)
+      (ownTamNext op (step cfg s op).ev ownTam) ops
+
+/-- every call of the sequence respects the contract in the state it is made in -/
+def RecvLegalSeq (cfg : Cfg) : St → List Op → Prop
+  | _, [] => True
+  | s, op :: ops => RecvGhostPeerOk cfg s op ∧ RecvLegalSeq cfg (step cfg s op).s ops
+
+theorem C13_recv_ghost_run_from (cfg : Cfg) (ops : List Op) : ∀ (s : St) (tbl : Mon.PeerTable) (ownTam : Nat),
+    RecvGhostInv s tbl ownTam → ConnectingFresh s → TarGhost.StoreTG s → RecvLegalSeq cfg s ops →
+    RecvGhostInv (run cfg s ops) (recvGhostRun cfg s tbl ownTam ops).1 (recvGhostRun cfg s tbl ownTam ops).2 ∧
+      ConnectingFresh (run cfg s ops) ∧ TarGhost.StoreTG (run cfg s ops) := by
+  induction ops with
+  | nil => intro s tbl ownTam hI hf hst _; exact ⟨hI, hf, hst⟩
+  | cons op ops ih =>
+    intro s tbl ownTam hI hf hst hl
+    obtain ⟨h1, h2, h3⟩ := C13_recv_ghost_inv_step_peer cfg s op tbl ownTam hI hf hst hl.1
+    exact ih _ _ _ h1 h2 h3 hl.2
+
+/-- **run-level corollary** (driver monitor `VIOL sig=C13 delivered_under_wrong_topic@<site>`): from a
+    fresh connection object of version 0 (undetermined), 4 or 5, with the ghosts started as the driver
+    starts them (`inTbl = []`, `ownTam = 0`), along every call sequence that respects the contract the
+    model's receive table is contained in the ghost table and its maximum is the ghost's `ownTam` -/
+theorem C13_recv_ghost_run (cfg : Cfg) (ver : Nat) (hv : ver = 0 ∨ ver = 4 ∨ ver = 5) (ops : List Op)
+    (hl : RecvLegalSeq cfg (St.init cfg ver) ops) :
+    RecvGhostInv (run cfg (St.init cfg ver) ops) (recvGhostRun cfg (St.init cfg ver) [] 0 ops).1
+      (recvGhostRun cfg (St.init cfg ver) [] 0 ops).2 ∧
+    ConnectingFresh (run cfg (St.init cfg ver) ops) :=
+  have h := C13_recv_ghost_run_from cfg ops _ _ _ (.of_tar_none rfl hv _ _) (fun h => by simp [St.init] at h)
+    (TarGhost.storeTG_init cfg ver) hl
+  ⟨h.1, h.2.1⟩
+
+instance (p : Pkt) : Decidable (TamUnique p) := by unfold TamUnique; infer_instance
+
 
 /-! ## non-vacuity: concrete states and inputs satisfying the hypotheses -/
 namespace C13Ex
@@ -573,5 +1313,240 @@ example : Mon.hasError (prV5Publish cRM (.ok pubOver)).ev = true ∧ recvs (prV5
     (prV5Publish cRM (.ok pubOver)).s.status = .disconnected := by decide
 
 end C13Ex
+
+/-! ## non-vacuity and necessity of the hypotheses: receiver-side ghost, round 4 -/
+namespace C13Ex2
+open C13Ex
+
+/-- `C13_recv_ghost_step2` on the example `C13_recv_ghost_step` had to exclude (`C13Ex.cRM`, `pubOver`):
+    the PUBLISH binds alias 1, is refused for Receive Maximum, nothing is delivered — and the binding
+    now IS in the ghost table, so `TarAgree` holds afterwards -/
+example : TamAgree cRM.s 3 ∧ TarAgree cRM.s tblR ∧
+    Mon.hasError (prV5Publish cRM (.ok pubOver)).ev = true ∧ recvs (prV5Publish cRM (.ok pubOver)).ev = [] ∧
+    (prV5Publish cRM (.ok pubOver)).s.tar = some { max := 3, m := [(2, [120]), (1, [98])] } ∧
+    inTblStep2 3 tblR pubOver = [(1, [98]), (2, [120])] ∧
+    TarAgree (prV5Publish cRM (.ok pubOver)).s (inTblStep2 3 tblR pubOver) := by
+  have h1 : TamAgree cRM.s 3 := by
+    intro t ht
+    have : cRM.s.tar = some { max := 3, m := [(2, [120])] } := rfl
+    rw [this] at ht; cases ht; rfl
+  have h2 : TarAgree cRM.s tblR := agreeR
+  exact ⟨h1, h2, by decide, by decide, by decide, by decide, (C13_recv_ghost_step2 cRM pubOver tblR 3 h2 h1).1⟩
+
+def cfgC : Cfg := { role := .client, pw := 2 }
+def cfgA : Cfg := { role := .any, pw := 2 }
+def connect3 : Pkt := { ver := 5, kind := .connect, size := 15, props := [(pTAM, 3)] }
+def connack0 : Pkt := { ver := 5, kind := .connack, size := 8, rc := some 0 }
+def bind (a : Nat) (t : List Nat) : Pkt := { ver := 5, kind := .publish, topic := t, alias := some a }
+def use (a : Nat) : Pkt := { ver := 5, kind := .publish, topic := [], alias := some a }
+def disconnect : Pkt := { ver := 5, kind := .disconnect, size := 2 }
+/-- a `recv` of the two-byte frame `fh 0` for which the harness reports the parsed packet `p` (the
+    driver's constant parser) -/
+def rcv (fh : Nat) (p : Pkt) : Op := .recv [fh, 0] (fun _ _ _ => .ok p)
+def gh (cfg : Cfg) (ver : Nat) (ops : List Op) := recvGhostRun cfg (St.init cfg ver) [] 0 ops
+def st (cfg : Cfg) (ver : Nat) (ops : List Op) := run cfg (St.init cfg ver) ops
+
+/-- a parser in the sense of `ParseTG`: answers `q` for a frame of `q`'s type and version -/
+def pz (q : Pkt) : Nat → Nat → List Nat → Except Nat Pkt :=
+  fun v fh _ => if q.kind.nibble = fh / 16 ∧ q.ver = v then .ok q else .error eMalformed
+theorem pz_ok (q : Pkt) : ParseTG (pz q) := by
+  intro v fh d p h
+  simp only [pz] at h
+  split at h
+  · rename_i hc; cases h; exact hc
+  · cases h
+def rcvP (fh : Nat) (q : Pkt) : Op := .recv [fh, 0] (pz q)
+
+/-! #### a legal history: CONNECT (Topic Alias Maximum 3), CONNACK, a PUBLISH binding alias 1 -/
+def opsOk : List Op := [.send connect3, rcvP 0x20 connack0, rcvP 0x30 (bind 1 [97])]
+
+theorem legal_send (cfg : Cfg) (s : St) (p : Pkt) (hv : p.ver = 4 ∨ p.ver = 5)
+    (hu : TamUnique p) (hk : p.kind ≠ .connack)
+    (hc : (∃ q, Ev.recv q ∈ (step cfg s (.send p)).ev ∧ q.kind = .connack ∧ q.rc = some 0) → s.status = .connecting) :
+    RecvGhostPeerOk cfg s (.send p) where
+  parse := by intro _ _ h; cases h
+  restore := trivial
+  sendVer := by intro q h; cases h; exact hv
+  tamUnique := by intro q h _; cases h; exact hu
+  size := by intro _ _ _ _ h; cases h
+  connackServer := by intro q h hq; cases h; exact absurd hq hk
+  pubConn := by intro q h; simp [recvParsed] at h
+  connackConn := hc
+  connectFits := by rintro ⟨_, _, h⟩; cases h
+
+theorem legal_recv (cfg : Cfg) (s : St) (fh : Nat) (q : Pkt)
+    (hf : (Framing.feed s.pb [fh, 0]).2.1 = some (.complete fh []))
+    (hsz : totalSize 0 ≤ s.mpsRecv) (hp : q.kind = .publish → s.status ≠ .connecting)
+    (hc : (∃ p, Ev.recv p ∈ (step cfg s (rcvP fh q)).ev ∧ p.kind = .connack ∧ p.rc = some 0) → s.status = .connecting)
+    (hm : s.status = .disconnected → 5 ≤ s.mpsSend) :
+    RecvGhostPeerOk cfg s (rcvP fh q) where
+  parse := by intro _ _ h; cases h; exact pz_ok q
+  restore := trivial
+  sendVer := by intro _ h; cases h
+  tamUnique := by intro _ h; cases h
+  size := by
+    intro inp parse fh' data h hf' _
+    cases h
+    rw [hf] at hf'; cases hf'; exact hsz
+  connackServer := by intro _ h; cases h
+  pubConn := by
+    intro p h hk
+    simp only [rcvP, recvParsed, hf, pz] at h
+    split at h
+    · simp only [TarGhost.okOf, Option.some.injEq] at h; subst h; exact hp hk
+    · cases h
+  connackConn := hc
+  connectFits := fun _ => hm
+
+theorem opsOk_legal : RecvLegalSeq cfgC (St.init cfgC 5) opsOk := by
+  refine ⟨legal_send _ _ _ (.inr rfl) (by decide) (by decide) ?_, ?_, ?_, trivial⟩
+  · rintro ⟨q, hq, _⟩
+    have e : (step cfgC (St.init cfgC 5) (.send connect3)).ev = [.send connect3 none] := by decide
+    rw [e] at hq; simp at hq
+  · exact legal_recv _ _ _ _ (by decide) (by decide) (by decide) (fun _ => by decide)
+      (fun h => absurd h (by decide))
+  · refine legal_recv _ _ _ _ (by decide) (by decide) (fun _ => by decide) ?_ (fun h => absurd h (by decide))
+    rintro ⟨q, hq, hk, _⟩
+    have e : (step cfgC (step cfgC (step cfgC (St.init cfgC 5) (.send connect3)).s (rcvP 0x20 connack0)).s
+        (rcvP 0x30 (bind 1 [97]))).ev = [.recv (bind 1 [97])] := by decide
+    rw [e] at hq; simp at hq; subst hq; cases hk
+
+/-- `C13_recv_ghost_run` on this history: the ghosts end as `([(1, "a")], 3)`, the model's table holds
+    `1 ↦ "a"` with maximum 3 -/
+example : recvGhostRun cfgC (St.init cfgC 5) [] 0 opsOk = ([(1, [97])], 3) ∧
+    (run cfgC (St.init cfgC 5) opsOk).tar = some { max := 3, m := [(1, [97])] } ∧
+    RecvGhostInv (run cfgC (St.init cfgC 5) opsOk) [(1, [97])] 3 := by
+  have h := (C13_recv_ghost_run cfgC 5 (.inr (.inr rfl)) opsOk opsOk_legal).1
+  have e : recvGhostRun cfgC (St.init cfgC 5) [] 0 opsOk = ([(1, [97])], 3) := by decide
+  rw [e] at h
+  exact ⟨e, by decide, h⟩
+
+/-! #### every clause of the contract is needed (`decide`-checked on the model; the ghosts are computed
+by `recvGhostRun`, i.e. exactly as the driver does) -/
+
+/-- refutes `TarAgree` from one binding the model has and the ghost lacks / has differently -/
+theorem not_tarAgree {s : St} {tbl : Mon.PeerTable} (a : Nat) (t : TAR) (topic : List Nat) (h1 : s.tar = some t)
+    (h2 : lookup a t.m = some topic) (h3 : Mon.peerLookup a tbl ≠ some topic) : ¬ TarAgree s tbl :=
+  fun h => h3 (h a t topic h1 h2)
+theorem not_tamAgree {s : St} {ownTam : Nat} (t : TAR) (h1 : s.tar = some t) (h2 : t.max ≠ ownTam) :
+    ¬ TamAgree s ownTam := fun h => h2 (h t h1)
+
+/-- (a) `tamUnique`: a CONNECT with two Topic Alias Maximum properties — the implementation takes the
+    last (5), the ghost the first (3): `TamAgree` fails; a PUBLISH binding alias 4 is then registered
+    by the model only, and the alias-only PUBLISH that follows is delivered under a topic the ghost
+    does not know (the driver would report `delivered_under_wrong_topic`) -/
+def connect2 : Pkt := { connect3 with props := [(pTAM, 3), (pTAM, 5)] }
+def opsA : List Op := [.send connect2, rcv 0x20 connack0, rcv 0x30 (bind 4 [97])]
+example : ¬ TamUnique connect2 ∧ (st cfgC 5 [.send connect2]).tar = some { max := 5 } ∧
+    gh cfgC 5 [.send connect2] = ([], 3) ∧ ¬ TamAgree (st cfgC 5 [.send connect2]) 3 ∧
+    gh cfgC 5 opsA = ([], 3) ∧
+    recvs (step cfgC (st cfgC 5 opsA) (rcv 0x30 (use 4))).ev = [{ use 4 with topic := [97], extracted := true }] ∧
+    Mon.peerLookup 4 (gh cfgC 5 opsA).1 = none :=
+  ⟨by decide, by decide, by decide, not_tamAgree { max := 5 } (by decide) (by decide), by decide, by decide, by decide⟩
+
+/-- (b) the version: on an object of version 7 (`VerTar` fails) or with a "version 0" packet handed to
+    `send` on an undetermined object (`sendVer` fails) the v5.0 CONNECT handler runs and creates the
+    table, while the ghost looks at `p.ver = 5` only -/
+example : ¬ VerTar (St.init cfgC 7) ∧ (st cfgC 7 [.send { connect3 with ver := 7 }]).tar = some { max := 3 } ∧
+    gh cfgC 7 [.send { connect3 with ver := 7 }] = ([], 0) ∧
+    (st cfgC 0 [.send { connect3 with ver := 0 }]).tar = some { max := 3 } ∧
+    gh cfgC 0 [.send { connect3 with ver := 0 }] = ([], 0) :=
+  ⟨by intro h; rcases h with h | ⟨h | h, _⟩ <;> revert h <;> decide, by decide, by decide, by decide, by decide⟩
+
+/-- `connackFresh` / `connackServer`: with role `any`, a CONNACK without Topic Alias Maximum sent on top
+    of a CONNECT we sent ourselves (`isClient = true`) leaves the CONNECT's table (maximum 3) in force;
+    the ghost's `ownTam` becomes 0 -/
+example : (st cfgA 5 [.send connect3]).tar ≠ none ∧ (st cfgA 5 [.send connect3]).isClient = true ∧
+    (st cfgA 5 [.send connect3]).status = .connecting ∧ (Mon.findProp connack0 pTAM).getD 0 = 0 ∧
+    (st cfgA 5 [.send connect3, .send connack0]).tar = some { max := 3 } ∧
+    gh cfgA 5 [.send connect3, .send connack0] = ([], 0) ∧
+    ¬ TamAgree (st cfgA 5 [.send connect3, .send connack0]) 0 :=
+  ⟨by decide, by decide, by decide, by decide, by decide, by decide,
+   not_tamAgree { max := 3 } (by decide) (by decide)⟩
+
+/-- `size`: we announced Maximum Packet Size 4; a 5-byte PUBLISH re-binding alias 1 is refused before
+    its handler runs (the model keeps `1 ↦ "a"`), the ghost registers `1 ↦ "b"`: `TarAgree` fails, and
+    the next alias-only PUBLISH (still processed: the handler has no status check) is delivered under
+    "a" while the ghost says "b" -/
+def connectMps : Pkt := { connect3 with props := [(pTAM, 3), (pMPS, 4)] }
+def opsSize : List Op := [.send connectMps, rcv 0x20 connack0, rcv 0x30 (bind 1 [97]),
+  .recv [0x30, 3, 0, 0, 0] (fun _ _ _ => .ok (bind 1 [98]))]
+example : totalSize 3 > (st cfgC 5 (opsSize.take 3)).mpsRecv ∧
+    (st cfgC 5 opsSize).tar = some { max := 3, m := [(1, [97])] } ∧ gh cfgC 5 opsSize = ([(1, [98])], 3) ∧
+    ¬ TarAgree (st cfgC 5 opsSize) (gh cfgC 5 opsSize).1 ∧
+    recvs (step cfgC (st cfgC 5 opsSize) (rcv 0x30 (use 1))).ev = [{ use 1 with topic := [97], extracted := true }] :=
+  ⟨by decide, by decide, by decide,
+   not_tarAgree 1 { max := 3, m := [(1, [97])] } [97] (by decide) (by decide) (by decide), by decide⟩
+
+/-- (c) `pubConn` — CONFIRMED: a client that has sent CONNECT (Topic Alias Maximum 3) processes a
+    PUBLISH that arrives BEFORE the CONNACK (no status check in `process_recv_v5_0_publish`): it is
+    delivered and binds alias 1; the CONNACK's delivery empties the ghost table but not the model's;
+    the alias-only PUBLISH that follows is delivered under "a", which the ghost does not know -/
+def opsC : List Op := [.send connect3, rcv 0x30 (bind 1 [97]), rcv 0x20 connack0]
+example : (st cfgC 5 [.send connect3]).status = .connecting ∧
+    recvs (step cfgC (st cfgC 5 [.send connect3]) (rcv 0x30 (bind 1 [97]))).ev = [bind 1 [97]] ∧
+    (st cfgC 5 opsC).tar = some { max := 3, m := [(1, [97])] } ∧ gh cfgC 5 opsC = ([], 3) ∧
+    ¬ TarAgree (st cfgC 5 opsC) (gh cfgC 5 opsC).1 ∧
+    recvs (step cfgC (st cfgC 5 opsC) (rcv 0x30 (use 1))).ev = [{ use 1 with topic := [97], extracted := true }] ∧
+    Mon.peerLookup 1 (gh cfgC 5 opsC).1 = none :=
+  ⟨by decide, by decide, by decide, by decide,
+   not_tarAgree 1 { max := 3, m := [(1, [97])] } [97] (by decide) (by decide) (by decide), by decide, by decide⟩
+
+/-- (c) `connackConn`: a CONNACK that arrives after we sent DISCONNECT (status `disconnected`, no
+    `notify_closed` yet) is accepted and delivered: the ghost table is emptied, the model's survives -/
+def opsC2 : List Op := [.send connect3, rcv 0x20 connack0, rcv 0x30 (bind 1 [97]), .send disconnect, rcv 0x20 connack0]
+example : (st cfgC 5 (opsC2.take 4)).status = .disconnected ∧ (st cfgC 5 opsC2).status = .connected ∧
+    (st cfgC 5 opsC2).tar = some { max := 3, m := [(1, [97])] } ∧ gh cfgC 5 opsC2 = ([], 3) ∧
+    ¬ TarAgree (st cfgC 5 opsC2) (gh cfgC 5 opsC2).1 :=
+  ⟨by decide, by decide, by decide, by decide,
+   not_tarAgree 1 { max := 3, m := [(1, [97])] } [97] (by decide) (by decide) (by decide)⟩
+
+/-- (c) `connectFits`: role `any`; the peer's Maximum Packet Size 4 is still in force after our
+    DISCONNECT; a CONNECT that does not parse moves the status to `connecting`, the 5-byte error
+    CONNACK does not fit and nothing is reset; a CONNACK then arrives *while connecting* and meets the
+    old connection's bindings -/
+def connectIn : Pkt := { ver := 5, kind := .connect, size := 15, props := [(pMPS, 4)] }
+def connackOut : Pkt := { ver := 5, kind := .connack, size := 4, rc := some 0, props := [(pTAM, 3)] }
+def opsK2 : List Op := [rcv 0x10 connectIn, .send connackOut, rcv 0x30 (bind 1 [97]), .send disconnect,
+  .recv [0x10, 0] (fun _ _ _ => .error eMalformed), rcv 0x20 connack0]
+example : (st cfgA 5 (opsK2.take 4)).status = .disconnected ∧ (st cfgA 5 (opsK2.take 4)).mpsSend = 4 ∧
+    (st cfgA 5 (opsK2.take 5)).status = .connecting ∧ ¬ ConnectingFresh (st cfgA 5 (opsK2.take 5)) ∧
+    (st cfgA 5 opsK2).tar = some { max := 3, m := [(1, [97])] } ∧ gh cfgA 5 opsK2 = ([], 3) ∧
+    ¬ TarAgree (st cfgA 5 opsK2) (gh cfgA 5 opsK2).1 :=
+  ⟨by decide, by decide, by decide,
+   fun h => by
+     have := (h (by decide)).1 { max := 3, m := [(1, [97])] } (by decide)
+     revert this; decide,
+   by decide, by decide,
+   not_tarAgree 1 { max := 3, m := [(1, [97])] } [97] (by decide) (by decide) (by decide)⟩
+
+/-- (d) `parse`: a parser that labels the PUBLISH of a v5.0 connection as a v3.1.1 packet, or hands a
+    "CONNECT" to the PUBLISH handler: the handler registers the binding, the ghost (which tests
+    `p.ver = 5 ∧ p.kind = publish`) does not -/
+def opsPV : List Op := [.send connect3, rcv 0x20 connack0, rcv 0x30 { bind 1 [97] with ver := 4 }]
+def opsPK : List Op := [.send connect3, rcv 0x20 connack0, rcv 0x30 { bind 1 [97] with kind := .connect }]
+example : (st cfgC 5 opsPV).tar = some { max := 3, m := [(1, [97])] } ∧ gh cfgC 5 opsPV = ([], 3) ∧
+    (st cfgC 5 opsPK).tar = some { max := 3, m := [(1, [97])] } ∧ gh cfgC 5 opsPK = ([], 3) ∧
+    ¬ TarAgree (st cfgC 5 opsPV) (gh cfgC 5 opsPV).1 :=
+  ⟨by decide, by decide, by decide, by decide,
+   not_tarAgree 1 { max := 3, m := [(1, [97])] } [97] (by decide) (by decide) (by decide)⟩
+
+/-- (d) `restore` / `store`: a v5.0 CONNECT in the store (only `restore_packets` of a list no real
+    export contains puts it there) is "resent" when the session is resumed; the ghost reads its Topic
+    Alias Maximum 9 -/
+def storedConnect : Pkt := { ver := 5, kind := .connect, size := 15, pid := some 5, props := [(pTAM, 9)] }
+def opsStore : List Op := [.restorePackets [storedConnect], .send connect3, rcv 0x20 { connack0 with sp := true }]
+example : ¬ TarGhost.RestoreTG (.restorePackets [storedConnect]) ∧ ¬ TarGhost.StoreTG (st cfgC 5 (opsStore.take 2)) ∧
+    (st cfgC 5 opsStore).tar = some { max := 3 } ∧ gh cfgC 5 opsStore = ([], 9) ∧
+    ¬ TamAgree (st cfgC 5 opsStore) 9 :=
+  ⟨fun h => by
+     have := h storedConnect (by simp)
+     revert this; decide,
+   fun h => by
+     have := h (5, storedConnect) (by decide)
+     revert this; decide,
+   by decide, by decide, not_tamAgree { max := 3 } (by decide) (by decide)⟩
+
+end C13Ex2
 
 end MqttVerif.Conn
